@@ -47,6 +47,20 @@ use wait::WaitSlot;
 
 pub(crate) use cursor::PublishedCursorReader;
 
+/// Differential-driver access to the scheduler's private building blocks (see `crate::verif`).
+#[cfg(grevm_verif)]
+pub mod verif_api {
+    #![allow(missing_docs, unreachable_pub)]
+    pub use super::{
+        context::verif_access::*, cursor::verif_access::*, wait::verif_access::*,
+    };
+    pub(crate) fn cursor_reader(
+        cursor: &std::sync::atomic::AtomicUsize,
+    ) -> super::cursor::PublishedCursorReader<'_> {
+        super::cursor::verif_access::reader(cursor)
+    }
+}
+
 const STALL_TIMEOUT: Duration = Duration::from_secs(8);
 
 struct CommitLoopResult<DBError> {
